@@ -25,7 +25,7 @@ Proof.
     by (intros s e; exact (roundtrip_query sizes inp bs i infl c vs s e R Hri Hin)).
   split; [exact Hq|]. intros s e Hse. unfold bw_values.
   replace (e <? s) with false by (symmetry; apply N.ltb_ge; exact Hse). rewrite Hq. cbn [rbind]. f_equal.
-  destruct (write_accepted fp o sizes inp bs Hi Hw c vs Hin) as (len & _ & Hwf & _).
+  destruct (write_accepted fp o sizes inp bs Hw c vs Hin) as (len & _ & Hwf & _).
   exact (values_spec len s e vs Hwf Hse).
 Qed.
 
